@@ -180,6 +180,32 @@ def who_may_call(facts, res):
                                 caller["file"], e.get("line"), {}))
 
 
+CHILD_KINDS = ("XmlElement", "XmlText", "XmlCDataSection", "XmlComment", "XmlProcessingInstruction", "XmlEntityReference",
+               "XmlDocumentType")
+
+
+def r12_7(facts, res):
+    """A removed node has no parent: parent_node() of every node kind that can be a child must be the outcome of a lookup
+    that fails for a detached node (parent id -> registry, or membership in the document), never an unconditional Some(..)."""
+    from facts import walk
+    st = res.rule("R12-7", instances=0)
+    for ty in CHILD_KINDS:
+        f = facts.fn_opt("xml_dom::<%s as Node>::parent_node" % ty)
+        if f is None or "body" not in f:
+            continue
+        st["instances"] += 1
+        b = f["body"]
+        tail = b.get("expr") if b.get("k") == "Block" else b
+        uncond = isinstance(tail, dict) and tail.get("k") == "Call" and str(tail.get("f", {}).get("path", "")).endswith("Some") \
+            and not b.get("stmts")
+        res.oblige(1, not uncond)
+        if uncond:
+            res.add(Finding("R12-7", ty, "%s answers Some(..) unconditionally: a node of this kind that was removed from its document still "
+                            "reports the document as parent" % f["path"], f["file"], f["line"], {}))
+    if st["instances"] < 6:
+        raise BrokenCheck("R12-7: %d parent_node implementations of child kinds (floor 6)" % st["instances"])
+
+
 def run(facts, tier):
     res = Result("C12")
     res.explanation = (
@@ -230,6 +256,7 @@ def run(facts, tier):
     res.functions_analysed = 6 + len(WHO_MAY_CALL)
     import registry
     registry.rule(facts, res, "R12-6")
+    r12_7(facts, res)
     import staleidx
     staleidx.rule(facts, res, "R12-5", lambda f: f["crate"] in ("xml_info", "xml_dom"), floor=7)
     return res
